@@ -15,12 +15,27 @@ PROPS = {
     "C07": P("exploration",
              "Each evaluation is one seeded plan: a fragment kind (set/mutex/bool/int), tuning knobs (cache type/size, MaxOpN, snapshot queue workers/depth, shard), 5-75 operations over every write path and read path with forced snapshots, reopen and cache flushes, and a PCT or random schedule for the background snapshot workers; after every operation the return value and the generated reads are compared with a map model.",
              L2_REAL, L2_STUB),
+    "C10": P("exploration",
+             "Each evaluation is one seeded plan of fragment writes through every path interleaved with checksum requests (which populate the per-block cache the next write must invalidate), snapshots and reopen; oracle: Blocks() equals Blocks() recomputed after InvalidateChecksums(), lists exactly the model's non-empty blocks, equals the checksum list of a twin fragment built from the model contents through another path, and differs in exactly one block after one bit of the twin is flipped.",
+             L2_REAL, L2_STUB),
+    "C12": P("exploration",
+             "Each evaluation is one seeded plan of writes on a set fragment with ranked/LRU caches of size 1, 3 or 50000, clock advances inside/past the 10 s rank-cache damping window, snapshots and reopen (cache reload), interleaved with top() calls with and without ids, filter row and threshold; oracle: every reported count for requested ids equals the model row count (within the filter); TopN(n) after RecalculateCache, when every row ever written fits in the cache, equals the n largest model counts in non-increasing order.",
+             L2_REAL, L2_STUB),
+    "C13": P("exploration",
+             "Each evaluation is one seeded plan of Set/Clear/Import on a mutex or bool fragment over 2-3 columns so that batches repeat a column with conflicting rows and hit columns that already hold a value, with snapshots and reopen; oracle after each step: every column holds at most one row and it is the row of the model's last write.",
+             L2_REAL, L2_STUB),
 }
 
 # Manifest texts for claimed properties.
 MAN = {
     "C07": {"text": "Seeded exploration of write/read histories on a real fragment with forced and background snapshots under controlled schedules; every read and change flag is compared with a map model after every step.",
             "note": "Samples histories (<=75 ops, <=5 rows, <=8 columns concentrated on container and shard edges); trusts the instrumentation overlay and the model in harness/internal/zz_verif_l2_test.go."},
+    "C10": {"text": "Seeded exploration of write histories interleaved with checksum requests; cached checksums compared with recomputed ones, with the model's block list and with a twin fragment.",
+            "note": "Hash collisions ignored; no re-implementation of the block hash (the implementation's own hasher is the reference for equal/different); samples histories of <=35 ops."},
+    "C12": {"text": "Seeded exploration of write histories and cache configurations with simulated-clock control of the rank-cache damping window; reported counts compared with model row counts.",
+            "note": "Fragment-level top() only in this check (PQL TopN two-pass merge is exercised by the cluster checks); TopN(n) judged only when all rows ever written fit in the cache, as the property states."},
+    "C13": {"text": "Seeded exploration of mutex/bool write histories with conflicting batches; invariant (<=1 row per column, equal to last write) checked after every step.",
+            "note": "Fragment-level (Set/Clear/Import paths below the field); field/executor level covered by the node-level checks."},
 }
 
 _PENDING = "not yet implemented in this revision of /verif (planned in DESIGN.md section 6); not claimed"
